@@ -221,7 +221,7 @@ class Src(str):
         pc = Src._pieces(pattern)
         names = pc[1::2]
         if not names:
-            if str.__contains__(self, pattern):
+            if re.search(re.escape(pattern) + ("(?!\\w)" if pattern[-1:].isalnum() or pattern[-1:] == "_" else ""), self):
                 yield binding
             return
         out, groups = [], {}
@@ -236,6 +236,8 @@ class Src(str):
             else:
                 groups[piece] = "g%d" % len(groups)
                 out.append("(?<![\\w.])(?P<%s>(?!(?:self|np|cls|None|True|False|not|and|or|in|is|if|else|for|lambda|return)\\b)[A-Za-z_]\\w*)(?!\\w)" % groups[piece])
+        if pattern[-1:].isalnum() or pattern[-1:] == "_":
+            out.append("(?!\\w)")  # `.cov_mat` does not match `.cov_mat_rel`
         rx = re.compile("".join(out))
         seen = set()
         used = set(binding.values())
@@ -271,7 +273,7 @@ class Src(str):
         if not hasattr(self, "_accepted"):
             return str.__contains__(self, pattern)
         if not Src._pieces(pattern)[1::2]:
-            return str.__contains__(self, pattern)
+            return any(True for _ in self._candidates(pattern, {}))
         # fast path: consistent with the binding found so far
         for nb in self._candidates(pattern, self._binding):
             self._accepted.append(pattern)
